@@ -7,7 +7,7 @@ ID = "C13"; MODEL = "life"; IMPL = "life"
 COQ_PROP = "Properties/C13.v"; COQ_DIRS = ["Common", "Life"]
 COQ_MODULE = "Life.Model"; RUN_FN = "run"
 THEOREMS = ["C13_contained", "C13_errors_exact", "C13_ok_only_if_no_uncaught_panic", "C13_globals_released",
-            "C13_others_as_if_silent", "C13_stereotype_in_force", "C13_errors_exact_full", "C13_ok_iff", "C13_others_teardown"]
+            "C13_others_as_if_silent", "C13_stereotype_in_force", "C13_errors_exact_full", "C13_ok_iff", "C13_others_teardown", "C13_silent_ends_no_later"]
 QUICK_N = 2500; THOROUGH_N = 120000
 RULE = ("scripts as for C09 (2..4 scripted modules with handler / start / task / end programs, injected messages) with panic!() placed in "
         "handle_message, at_sim_start (initial and restarts), at_sim_end and in spawned tasks: every (module, callback kind, program, "
@@ -51,7 +51,10 @@ CLAIM = dict(
          "as a two-phase simulation (equal worlds until the panic; afterwards equal up to events that are inert for a dead m); "
          "others_teardown: the tear-down (at_sim_end) records of every other module are the same in the two runs once the time stamps of "
          "the call records are blanked (the runs may end at different instants; proved via: when the event set runs empty no module has "
-         "a pending timer or next_wakeup).  Tied to "
+         "a pending timer or next_wakeup); silent_ends_no_later: every tear-down record of the run in which m falls silent is stamped "
+         "no later than every tear-down record of the run in which it panics (proved via 'nothing is scheduled into the past': the "
+         "event set's clock is the time of the last dispatched event, every queued event lies at or after it, timer queues are sorted, "
+         "so a run ends exactly at its never-decreasing horizon, and the silent run's horizon stays at or below the panicking one's).  Tied to "
          "des on every invocation by differential runs (panic!() in scripted callbacks and tasks on the real runtime, set_stereotyp, "
          "RuntimeError contents, is_active samples after every event), each script simulated twice in one process (the second run must "
          "equal the first: global state stays usable) and, for callback panics, a third time in its falls-silent variant whose other "
@@ -69,8 +72,8 @@ CLAIM = dict(
          "modules before 9e87d89 (module_restart went on with the later stages after a caught panic): Refuted/C13.v, "
          "corpus/C13/multistage_panic.txt; a runtime that samples the stereotype before the callback is the pinned variant (c) there. "
          "The tear-down records of other modules agree up to the final time stamp (left-over wake-ups of the dead module move the end of "
-         "the simulation): proved (others_teardown); that the silent run never ends later than the panicking one is checked by the "
-         "monitor only. at_sim_end is called on panicked modules too.",
+         "the simulation): proved (others_teardown), and so is that the silent run never ends later than the panicking one "
+         "(silent_ends_no_later; the monitor clause stays). at_sim_end is called on panicked modules too.",
     technique="Coq: trace invariants over a step relation (panic => inactive, inactive => no records), error-list bookkeeping, and a "
               "stuttering two-run simulation with a relational reading of the interpreter; differential correspondence check; log monitor",
     design="6/C13")
